@@ -407,6 +407,27 @@ func genSys(c *ctx) {
 		if k > 7 {
 			k = 7
 		}
+		// the PXE layout, now and then: server_id first, a few option plugins, nbp (which ends the chain) last
+		pxe := c.rng.Intn(8) == 0
+		if pxe {
+			var first, last, mid []plugSpec
+			for _, sp := range cands {
+				switch sp.name {
+				case "server_id":
+					first = append(first, sp)
+				case "nbp":
+					last = append(last, sp)
+				case "file", "range", "prefix", "sleep":
+				default:
+					mid = append(mid, sp)
+				}
+			}
+			if len(mid) > 3 {
+				mid = mid[:3]
+			}
+			cands = append(append(first, mid...), last...)
+			k = len(cands)
+		}
 		var ownSID net.IP
 		var ownDUID dhcpv6.DUID
 		for _, sp := range cands[:k] {
@@ -460,7 +481,7 @@ func genSys(c *ctx) {
 						ownSID = net.ParseIP(args[0]).To4()
 					}
 				}
-			} else if v, ok := sysValid[sp.name]; ok && c.rng.Intn(10) < 6 && v[b2i(v6)][0] != "-" {
+			} else if v, ok := sysValid[sp.name]; ok && (pxe || c.rng.Intn(10) < 6) && v[b2i(v6)][0] != "-" {
 				// mostly configurations that are accepted, so that chains get long
 				args = strings.Fields(v[b2i(v6)][c.rng.Intn(len(v[b2i(v6)]))])
 			} else {
